@@ -253,9 +253,14 @@ def build_functions(tier):
                 ('user h + blacklist=[sin]', dict(blacklist=['sin'], user_functions={'h': lambda t: t * t}), ['sin(x)'], 'blacklist'),
                 ('user h + whitelist=[cos,abs]', dict(whitelist=['cos', 'abs'], user_functions={'h': lambda t: t * t}), ['sin(x)', 'sqrt(4)'],
                  'whitelist'),
+                # a blacklisted name that the author has ALSO redefined as a user function (overriding the default) is still
+                # forbidden to students
+                ('user sin (overrides the default) + blacklist=[sin]',
+                 dict(blacklist=['sin'], user_functions={'sin': lambda t: t * 0.5, 'h': lambda t: t * t}, suppress_warnings=True),
+                 ['sin(0)', 'sin(x)'], 'blacklist'),
             ]
             for label, kw, Rs, tag in cfgs:
-                uf = 'h' if 'user_functions' in kw else None
+                uf = 'h' if ('user_functions' in kw and 'h' in kw['user_functions']) else None
                 mkg = (lambda cls=cls, kw=kw, credit=credit: cls(answers={'expect': '2*cos(x)+x', 'grade_decimal': credit},
                                                                  variables=['x'], **kw))
                 lab = '%s %s credit %r' % (clsname, label, credit)
